@@ -630,7 +630,7 @@ TYPE_ORDER = ["float", "int", "np.int64", "np.float64", "0d_int64", "0d_float64"
 @st.composite
 def integral_param_sets(draw, fns=FN_ORDER):
     """Same shapes as param_sets, all values integers: 1..100 (initial product / product feed may be 0),
-    major = minor*(1+q) with q in 1..10, r free (for 2 A -> n B this lands on both sides of the steady state)."""
+    major = minor + d with d in 1..1000, r free or next to rho*A_ss (both sides of the steady state of 2 A -> n B)."""
     fn = draw(st.sampled_from(fns))
     p = {}
     zero_or = lambda: Fraction(0) if draw(st.integers(0, 7)) == 7 else Fraction(draw(ipos))   # noqa: E731
@@ -645,7 +645,8 @@ def integral_param_sets(draw, fns=FN_ORDER):
             p["kb"] = Fraction(draw(ipos))
         p["prod"] = zero_or()
         p["minor"] = Fraction(draw(ipos))
-        p["major"] = p["minor"] * (1 + draw(st.integers(1, 10)))
+        # major = minor + d: q = d/minor >= 1/100 as in param_sets, and major is in general not a multiple of minor
+        p["major"] = p["minor"] + draw(st.one_of(ipos, st.integers(101, 1000)))
     else:
         p["k"] = Fraction(draw(ipos))
         p["fr"] = Fraction(draw(ipos))
